@@ -344,6 +344,10 @@ class SharedAttr:
             if access is not None:
                 access('write', self.name)
         obj.__dict__[self.slot] = value
+        if hook is not None:
+            report = getattr(hook, 'shared_write', None)
+            if report is not None:
+                report(self.name, value)
 
 
 def load():
